@@ -3,21 +3,27 @@
   Property theorems only; the model is HL/Model/Ranges.lean, the specification
   HL/Spec/RangeSpec.lean, helper lemmas HL/Lemmas/Ranges.lean.
 
-  Reading guide.  The features convert position ranges of the syntax tree with
-  `astRangeToProtocol` (`uint32(x-1)` on 1-based lines and columns).  The tree's columns count
-  runes (lexer as pinned) or UTF-16 units (repo_patches/fix-utf16-columns.diff); the theorems are
-  stated for both through `utf16 : Bool`:
+  Reading guide.  The columns of the syntax tree count runes.  Every feature converts the
+  position ranges it reports with `columnMapper.toProtocol` (model: `astRangeToProtocol lns`),
+  which turns a rune column into the UTF-16 length of the line's prefix, using the lines of the
+  text the tree was parsed from (repo_patches/fix-utf16-positions.diff); the cursor of a
+  request goes the other way (`runeCur`).  Hypotheses:
 
-    TreePositionsSound (unitOf utf16) doc j   every range of the tree that has an End is a range
-                                              of the text in that unit   (lexer/parser obligation)
-    convGuard utf16 doc r                     r has an End, fits uint32 and — only while columns
-                                              count runes — no non-BMP rune precedes its ends
+    TreePositionsSound one doc j   every range of the tree that has an End is a range of the text
+                                   in rune columns                 (lexer/parser obligation)
+    docSmall doc                   line numbers and UTF-16 offsets of the document fit `uint32`
+    hitGuard doc h                 an element whose range was computed by column arithmetic
+                                   (payee estimate, tag halves, name ranges) has a range of the text
 
-  With `utf16 = true` the guard asks nothing about the text.  Each `_partial` theorem is
-  followed by the counterexample that forces its guard.
+  Nothing is assumed about the characters that precede a range: the former guard "no rune
+  outside the BMP earlier on the line" is gone (the `pinned_…` counterexamples keep the old
+  behaviour on record).  Each remaining `_partial` theorem is followed by the counterexample
+  that forces its guard.
 -/
 import HL.Lemmas.Ranges
 import HL.Lemmas.Completion
+import HL.Model.CompletionPinned
+import HL.Model.Parser
 namespace HL.Props.C08
 open HL HL.Ast HL.Text HL.Ranges HL.RangeSpec HL.Lemmas.Ranges HL.Lemmas.Text
 
@@ -38,132 +44,113 @@ example : u16len ("café ж x".toList.take (7 - 1)) = 7 - 1 := by decide
 theorem col_nonbmp_counterexample :
     u16len ("😀 x".toList.take (3 - 1)) = (3 - 1) + 1 := by decide
 
-/-- The same through the conversion: on the line `😀 ab` the word `ab` occupies rune columns
-    3–5; `astRangeToProtocol` sends 0:2–0:4, which covers " a". -/
-theorem astRange_nonbmp_counterexample :
+/-- The code as pinned copied `column − 1` into the character: on the line `😀 ab` the word `ab`
+    occupies rune columns 3–5 and was sent as 0:2–0:4, which covers " a".  The repaired
+    conversion sends 0:3–0:5. -/
+theorem pinned_utf16_columns_counterexample :
     let doc := "😀 ab\n".toList
     let r : Rng := ⟨⟨1, 3, 5⟩, ⟨1, 5, 7⟩⟩
     rngSound one doc r = true ∧ lexSound one doc r "ab".toList = true ∧
-    covers doc (toN (astRangeToProtocol r)) "ab".toList = false ∧
-    slice doc (toN (astRangeToProtocol r)) = some " a".toList := by decide
+    covers doc (toN (astRangeToProtocolPinned r)) "ab".toList = false ∧
+    slice doc (toN (astRangeToProtocolPinned r)) = some " a".toList ∧
+    toN (astRangeToProtocol (lines doc) r) = ⟨0, 3, 0, 5⟩ ∧
+    covers doc (toN (astRangeToProtocol (lines doc) r)) "ab".toList = true := by decide
 
-/-- … and a range that ends right after the emoji is sent with its end inside the surrogate
+/-- … and a range that ends right after the emoji was sent with its end inside the surrogate
     pair: not a well-formed range at all. -/
-theorem astRange_surrogate_counterexample :
+theorem pinned_utf16_surrogate_counterexample :
     let doc := "a😀\n".toList
     let r : Rng := ⟨⟨1, 1, 0⟩, ⟨1, 3, 5⟩⟩
-    rngSound one doc r = true ∧ rangeOK doc (toN (astRangeToProtocol r)) = false := by decide
+    rngSound one doc r = true ∧ rangeOK doc (toN (astRangeToProtocolPinned r)) = false ∧
+    rangeOK doc (toN (astRangeToProtocol (lines doc) r)) = true := by decide
 
 /-! ## The conversion -/
 
-/-- `astRangeToProtocol` (and the identical inline arithmetic of server.go and links.go) maps a
-    range of the tree to a well-formed range of the document. -/
-theorem astRange_rangeOK_partial (utf16 : Bool) (doc : Txt) (j : Journal) (r : Rng)
-    (ht : TreePositionsSound (unitOf utf16) doc j = true) (hr : r ∈ nodeRanges j)
-    (hg : convGuard utf16 doc r = true) :
-    rangeOK doc (toN (astRangeToProtocol r)) = true := node_rangeOK ht hr hg
+/-- `columnMapper.toProtocol` maps every range of the tree that has an End to a well-formed
+    range of the document: inside the document, start ≤ end, both ends on code-unit boundaries
+    that do not split a surrogate pair — whatever characters precede it. -/
+theorem astRange_rangeOK (doc : Txt) (j : Journal) (r : Rng)
+    (ht : TreePositionsSound one doc j = true) (hd : docSmall doc = true) (hr : r ∈ nodeRanges j)
+    (hg : hasEnd r = true) :
+    rangeOK doc (toN (astRangeToProtocol (lines doc) r)) = true := node_rangeOK ht hd hr hg
 
-/-- … and the converted range covers exactly the lexeme that lies between the two columns. -/
-theorem astRange_covers_partial (utf16 : Bool) (doc : Txt) (r : Rng) (lex : Txt)
-    (hl : lexSound (unitOf utf16) doc r lex = true) (hm : rngSmall r = true)
-    (hb : utf16 = true ∨ (bmpBefore doc r.start = true ∧ bmpBefore doc r.stop = true)) :
-    covers doc (toN (astRangeToProtocol r)) lex = true := by
-  cases utf16 with
-  | true => exact conv_covers (by simpa [unitOf] using hl) hm
-  | false =>
-    rcases hb with hb | ⟨hb1, hb2⟩
-    · cases hb
-    · apply conv_covers _ hm
-      simp only [unitOf, Bool.false_eq_true, if_false] at hl
-      simp only [lexSound, Bool.and_eq_true, decide_eq_true_eq, beq_iff_eq] at hl ⊢
-      obtain ⟨⟨⟨⟨l1, l2⟩, c1⟩, c2⟩, hl⟩ := hl
-      refine ⟨⟨⟨⟨l1, l2⟩, c1⟩, c2⟩, ?_⟩
-      unfold bmpBefore at hb1 hb2
-      rw [← l2] at hb2
-      cases hln : (docLines doc)[r.start.line - 1]? with
-      | none => simp [hln] at hl
-      | some ln =>
-        simp only [hln] at hl hb1 hb2 ⊢
-        rw [charsOf_one, charsOf_one] at hl
-        by_cases h1 : r.start.col - 1 ≤ ln.length
-        · by_cases h2 : r.stop.col - 1 ≤ ln.length
-          · simp only [h1, h2, if_true] at hl
-            simp only [List.all_eq_true, decide_eq_true_eq] at hb1 hb2
-            rw [charsOf_u16_of_bmp ln _ h1 hb1, charsOf_u16_of_bmp ln _ h2 hb2]
-            exact hl
-          · simp [h1, h2] at hl
-        · simp [h1] at hl
+/-- … and the converted range covers exactly the lexeme that lies between the two rune columns. -/
+theorem astRange_covers (doc : Txt) (r : Rng) (lex : Txt)
+    (hl : lexSound one doc r lex = true) (hd : docSmall doc = true) :
+    covers doc (toN (astRangeToProtocol (lines doc) r)) lex = true := conv_covers hl hd
 
-/-- Non-vacuity of the two theorems above: a one-transaction journal with non-ASCII (BMP)
-    text satisfies the hypotheses. -/
+/-- Non-vacuity of the two theorems above: non-ASCII and non-BMP text before and inside the
+    lexeme. -/
 example :
-    let doc := "2024-01-15 кафе\n    a:b  1\n".toList
-    let r : Rng := ⟨⟨1, 12, 11⟩, ⟨1, 16, 19⟩⟩
-    lexSound (unitOf false) doc r "кафе".toList = true ∧ rngSmall r = true ∧
-    bmpBefore doc r.start = true ∧ bmpBefore doc r.stop = true := by decide
+    let doc := "2024-01-15 😀 кафе𝄞\n    a:b  1\n".toList
+    let r : Rng := ⟨⟨1, 14, 16⟩, ⟨1, 19, 28⟩⟩
+    lexSound one doc r "кафе𝄞".toList = true ∧ docSmall doc = true ∧
+    toN (astRangeToProtocol (lines doc) r) = ⟨0, 14, 0, 20⟩ := by decide
 
-/-- Forced guard "the range has an End": the name ranges of `account` / `commodity` directives
-    are stored without End; `uint32(0 - 1)` sends line and character 4294967295. -/
-theorem directive_name_no_end_counterexample :
+/-- The name ranges of `account` / `commodity` directives are stored without End; converting
+    them sends line and character 4294967295 (`uint32(0 - 1)`).  No feature converts them any
+    more (workspace symbols were the last: `pinned_directive_name_no_end_counterexample`). -/
+theorem no_end_conversion_counterexample :
     let doc := "account a:b\n".toList
     let r : Rng := ⟨⟨1, 9, 8⟩, Pos.zero⟩
-    toN (astRangeToProtocol r) = ⟨0, 8, 4294967295, 4294967295⟩ ∧
-    rangeOK doc (toN (astRangeToProtocol r)) = false := by decide
+    toN (astRangeToProtocol (lines doc) r) = ⟨0, 8, 4294967295, 4294967295⟩ ∧
+    rangeOK doc (toN (astRangeToProtocol (lines doc) r)) = false := by decide
 
 /-! ## Per feature: well-formed ranges -/
 
 /-- Hover: the `Range` of the response. -/
-theorem hover_rangeOK_partial (utf16 : Bool) (doc : Txt) (j : Journal) (c : Cur) (h : Hit) (x : LRange)
-    (ht : TreePositionsSound (unitOf utf16) doc j = true)
-    (hh : hover j c = some (h, x)) (hg : hitGuard utf16 doc h = true) :
+theorem hover_rangeOK_partial (doc : Txt) (j : Journal) (c : Cur) (h : Hit) (x : LRange)
+    (ht : TreePositionsSound one doc j = true) (hd : docSmall doc = true)
+    (hh : hover (lines doc) j c = some (h, x)) (hg : hitGuard doc h = true) :
     rangeOK doc (toN x) = true := by
   simp only [hover, Option.map_eq_some_iff] at hh
   obtain ⟨h', hf, he⟩ := hh
   simp only [Prod.mk.injEq] at he
   obtain ⟨rfl, rfl⟩ := he
-  exact hit_rangeOK ht (findElement_node hf) hg
+  exact hit_rangeOK ht hd (findElement_node hf) hg
 
-/-- Hover, definition-family and symbol ranges are on target: whenever the columns of the
+/-- Hover, definition-family and symbol ranges are on target: whenever the rune columns of the
     located element delimit `lex` on its line, the range sent covers exactly `lex`. -/
 theorem hover_covers_partial (doc : Txt) (j : Journal) (c : Cur) (h : Hit) (x : LRange) (lex : Txt)
-    (hh : hover j c = some (h, x)) (hl : lexSound u16w doc h.rng lex = true)
-    (hm : rngSmall h.rng = true) : covers doc (toN x) lex = true := by
+    (hh : hover (lines doc) j c = some (h, x)) (hl : lexSound one doc h.rng lex = true)
+    (hd : docSmall doc = true) : covers doc (toN x) lex = true := by
   simp only [hover, Option.map_eq_some_iff] at hh
   obtain ⟨h', _, he⟩ := hh
   simp only [Prod.mk.injEq] at he
   obtain ⟨rfl, rfl⟩ := he
-  exact conv_covers hl hm
+  exact conv_covers hl hd
 
 /-- PrepareRename: the symbol range. -/
-theorem prepareRename_rangeOK_partial (utf16 : Bool) (doc : Txt) (j : Journal) (c : Cur) (h : Hit) (x : LRange)
-    (ht : TreePositionsSound (unitOf utf16) doc j = true)
-    (hh : prepareRename j c = some (h, x)) (hg : hitGuard utf16 doc h = true) :
+theorem prepareRename_rangeOK_partial (doc : Txt) (j : Journal) (c : Cur) (h : Hit) (x : LRange)
+    (ht : TreePositionsSound one doc j = true) (hd : docSmall doc = true)
+    (hh : prepareRename (lines doc) j c = some (h, x)) (hg : hitGuard doc h = true) :
     rangeOK doc (toN x) = true := by
   simp only [prepareRename, Option.map_eq_some_iff] at hh
   obtain ⟨h', hf, he⟩ := hh
   simp only [Prod.mk.injEq] at he
   obtain ⟨rfl, rfl⟩ := he
-  exact hit_rangeOK ht (findDefinitionTarget_node hf) hg
+  exact hit_rangeOK ht hd (findDefinitionTarget_node hf) hg
 
-/-- Definition: the returned location (a directive, a transaction, or the first usage). -/
-theorem definition_rangeOK_partial (utf16 : Bool) (doc : Txt) (j : Journal) (c : Cur) (h : Hit) (x : LRange)
-    (ht : TreePositionsSound (unitOf utf16) doc j = true)
-    (hh : (h, x) ∈ definition j c) (hg : convGuard utf16 doc h.rng = true) :
+/-- Definition: the returned location (a directive, a transaction, or the first usage) — a
+    range stored in the tree, so nothing but its End is asked for. -/
+theorem definition_rangeOK_partial (doc : Txt) (j : Journal) (c : Cur) (h : Hit) (x : LRange)
+    (ht : TreePositionsSound one doc j = true) (hd : docSmall doc = true)
+    (hh : (h, x) ∈ definition (lines doc) j c) (hg : hasEnd h.rng = true) :
     rangeOK doc (toN x) = true := by
   unfold definition at hh
   split at hh
   · simp at hh
   · split at hh
     · simp at hh
-    · rename_i t _ h' hd
+    · rename_i t _ h' hdef
       simp only [List.mem_singleton, Prod.mk.injEq] at hh
       obtain ⟨rfl, rfl⟩ := hh
-      exact node_rangeOK ht (definitionHit_mem hd) hg
+      exact node_rangeOK ht hd (definitionHit_mem hdef) hg
 
 /-- References (and the edits of Rename, which are the references with the declaration). -/
-theorem references_rangeOK_partial (utf16 : Bool) (doc : Txt) (j : Journal) (c : Cur) (decl : Bool)
-    (h : Hit) (x : LRange) (ht : TreePositionsSound (unitOf utf16) doc j = true)
-    (hh : (h, x) ∈ references j c decl) (hg : hitGuard utf16 doc h = true) :
+theorem references_rangeOK_partial (doc : Txt) (j : Journal) (c : Cur) (decl : Bool)
+    (h : Hit) (x : LRange) (ht : TreePositionsSound one doc j = true) (hd : docSmall doc = true)
+    (hh : (h, x) ∈ references (lines doc) j c decl) (hg : hitGuard doc h = true) :
     rangeOK doc (toN x) = true := by
   unfold references at hh
   split at hh
@@ -172,66 +159,106 @@ theorem references_rangeOK_partial (utf16 : Bool) (doc : Txt) (j : Journal) (c :
     have := sortAndDedup_sub _ _ hh
     simp only [List.mem_map, Prod.mk.injEq] at this
     obtain ⟨h', hm, rfl, rfl⟩ := this
-    exact hit_rangeOK ht (referenceHits_node hm) hg
+    exact hit_rangeOK ht hd (referenceHits_node hm) hg
 
-theorem rename_rangeOK_partial (utf16 : Bool) (doc : Txt) (j : Journal) (c : Cur)
-    (h : Hit) (x : LRange) (ht : TreePositionsSound (unitOf utf16) doc j = true)
-    (hh : (h, x) ∈ rename j c) (hg : hitGuard utf16 doc h = true) :
+theorem rename_rangeOK_partial (doc : Txt) (j : Journal) (c : Cur)
+    (h : Hit) (x : LRange) (ht : TreePositionsSound one doc j = true) (hd : docSmall doc = true)
+    (hh : (h, x) ∈ rename (lines doc) j c) (hg : hitGuard doc h = true) :
     rangeOK doc (toN x) = true :=
-  references_rangeOK_partial utf16 doc j c true h x ht hh hg
+  references_rangeOK_partial doc j c true h x ht hd hh hg
 
-/-- Rename on a declared account (code after the references/rename repair b9a9245, which derives
-    the end of a name from the name): both edits are well-formed and cover the name. -/
+/-- References and rename edits are on target: whenever the rune columns of an occurrence
+    delimit `lex`, the location sent covers exactly `lex`. -/
+theorem references_covers_partial (doc : Txt) (j : Journal) (c : Cur) (decl : Bool)
+    (h : Hit) (x : LRange) (lex : Txt) (hh : (h, x) ∈ references (lines doc) j c decl)
+    (hl : lexSound one doc h.rng lex = true) (hd : docSmall doc = true) :
+    covers doc (toN x) lex = true := by
+  unfold references at hh
+  split at hh
+  · simp at hh
+  · have := sortAndDedup_sub _ _ hh
+    simp only [List.mem_map, Prod.mk.injEq] at this
+    obtain ⟨h', _, rfl, rfl⟩ := this
+    exact conv_covers hl hd
+
+/-- Rename on a declared account whose name holds a rune outside the BMP: both edits are
+    well-formed and cover the name; and references from the commodity that FOLLOWS that name on
+    the posting line (cursor given in UTF-16 units) covers the commodity — the shape on which
+    the pinned code answered with " US" (`pinned_utf16_columns_counterexample`). -/
 example :
-    let doc := "account a:b\n2024-01-15 x\n    a:b  1\n".toList
-    let acct : Account := ⟨[97, 58, 98], ⟨⟨3, 5, 29⟩, ⟨3, 8, 32⟩⟩⟩
-    let p : Posting := ⟨.none, acct, none, none, none, [], [], .none, ⟨⟨3, 5, 29⟩, ⟨3, 11, 35⟩⟩⟩
-    let tx : Transaction := ⟨⟨2024, 1, 15, ⟨⟨2, 1, 12⟩, ⟨2, 11, 22⟩⟩⟩, none, .none, [], [120], [], [],
-      [p], [], [], ⟨⟨2, 1, 12⟩, ⟨4, 1, 36⟩⟩⟩
-    let j : Journal := ⟨[tx], [.account ⟨[97, 58, 98], ⟨⟨1, 9, 8⟩, Pos.zero⟩⟩ [] [] [] ⟨⟨1, 1, 0⟩, ⟨2, 1, 12⟩⟩], [], []⟩
-    ((rename j ⟨2, 5⟩).map fun e => toN e.2) = [⟨0, 8, 0, 11⟩, ⟨2, 4, 2, 7⟩] ∧
-    ((rename j ⟨2, 5⟩).map fun e => covers doc (toN e.2) "a:b".toList) = [true, true] ∧
-    ((rename j ⟨2, 5⟩).map fun e => hitGuard false doc e.1) = [true, true] := by decide
+    let doc := "account a😀:b\n2024-01-15 x\n    a😀:b  1 USD\n".toList
+    let nm : Bytes := [97, 240, 159, 152, 128, 58, 98]
+    let acct : Account := ⟨nm, ⟨⟨3, 5, 32⟩, ⟨3, 9, 39⟩⟩⟩
+    let usd : Commodity := ⟨[85, 83, 68], .right, ⟨⟨3, 13, 43⟩, ⟨3, 16, 46⟩⟩⟩
+    let p : Posting := ⟨.none, acct, some ⟨⟨1, 0⟩, [49], usd, false, ⟨⟨3, 11, 41⟩, ⟨3, 16, 46⟩⟩⟩, none, none, [], [],
+      .none, ⟨⟨3, 5, 32⟩, ⟨3, 16, 46⟩⟩⟩
+    let tx : Transaction := ⟨⟨2024, 1, 15, ⟨⟨2, 1, 15⟩, ⟨2, 11, 25⟩⟩⟩, none, .none, [], [120], [], [],
+      [p], [], [], ⟨⟨2, 1, 15⟩, ⟨4, 1, 47⟩⟩⟩
+    let j : Journal := ⟨[tx], [.account ⟨nm, ⟨⟨1, 9, 8⟩, Pos.zero⟩⟩ [] [] [] ⟨⟨1, 1, 0⟩, ⟨2, 1, 15⟩⟩], [], []⟩
+    ((rename (lines doc) j ⟨2, 5⟩).map fun e => toN e.2) = [⟨0, 8, 0, 13⟩, ⟨2, 4, 2, 9⟩] ∧
+    ((rename (lines doc) j ⟨2, 5⟩).map fun e => covers doc (toN e.2) "a😀:b".toList) = [true, true] ∧
+    ((rename (lines doc) j ⟨2, 5⟩).map fun e => hitGuard doc e.1) = [true, true] ∧
+    ((references (lines doc) j ⟨2, 14⟩ true).map fun e => (toN e.2, covers doc (toN e.2) "USD".toList)) =
+      [(⟨2, 13, 2, 16⟩, true)] := by decide
 
-/-- A `nameRange` is a rune column plus a UTF-16 length.  For a posting's account only blanks
-    and a status mark can precede the name, so the mix is harmless: `a😀:b` is covered exactly
-    even while columns count runes (whereas the account range stored in the tree, which hover
-    still uses, ends one unit early). -/
-example :
-    let doc := "2024-01-15 x\n    a😀:b  1\n".toList
-    let acct : Account := ⟨[97, 240, 159, 152, 128, 58, 98], ⟨⟨2, 5, 17⟩, ⟨2, 9, 24⟩⟩⟩
-    covers doc (toN (astRangeToProtocol (accountNameRange acct))) "a😀:b".toList = true ∧
-    slice doc (toN (astRangeToProtocol acct.range)) = some "a😀:".toList := by decide
-
-/-- Forced guard "the range has an End" for workspace symbols: the symbol of a declared account
-    is sent with the end 4294967295:4294967295. -/
-theorem workspaceSymbol_directive_counterexample :
+/-- Workspace symbols as pinned converted the name range stored in the tree, which has no End:
+    the symbol of a declared account was sent with the end 4294967295:4294967295.  The repaired
+    code derives the end from the name. -/
+theorem pinned_directive_name_no_end_counterexample :
     let doc := "account a:b\n".toList
     let j : Journal := ⟨[], [.account ⟨[97, 58, 98], ⟨⟨1, 9, 8⟩, Pos.zero⟩⟩ [] [] [] ⟨⟨1, 1, 0⟩, ⟨2, 1, 12⟩⟩], [], []⟩
-    ((workspaceSymbols j).map fun e => toN e.2) = [⟨0, 8, 4294967295, 4294967295⟩] ∧
-    ((workspaceSymbols j).map fun e => rangeOK doc (toN e.2)) = [false] := by decide
+    ((workspaceSymbolHitsPinned j).map fun h => toN (astRangeToProtocolPinned h.rng)) =
+      [⟨0, 8, 4294967295, 4294967295⟩] ∧
+    ((workspaceSymbolHitsPinned j).map fun h => rangeOK doc (toN (astRangeToProtocolPinned h.rng))) = [false] ∧
+    ((workspaceSymbols (lines doc) j).map fun e => toN e.2) = [⟨0, 8, 0, 11⟩] ∧
+    ((workspaceSymbols (lines doc) j).map fun e => covers doc (toN e.2) "a:b".toList) = [true] := by decide
 
 /-- Document symbols: `Range` and `SelectionRange` of every outline entry. -/
-theorem documentSymbol_rangeOK_partial (utf16 : Bool) (doc : Txt) (j : Journal)
-    (ht : TreePositionsSound (unitOf utf16) doc j = true)
-    (hg : ∀ r ∈ symbolRanges j, convGuard utf16 doc r = true) :
-    ∀ x ∈ documentSymbols j, rangeOK doc (toN x) = true := by
+theorem documentSymbol_rangeOK_partial (doc : Txt) (j : Journal)
+    (ht : TreePositionsSound one doc j = true) (hd : docSmall doc = true)
+    (hg : ∀ r ∈ symbolRanges j, hasEnd r = true) :
+    ∀ x ∈ documentSymbols (lines doc) j, rangeOK doc (toN x) = true := by
   rw [documentSymbols_eq]
-  exact map_conv_rangeOK ht (symbolRanges_sub j) hg
+  exact map_conv_rangeOK ht hd (symbolRanges_sub j) hg
 
-/-- Workspace symbols. -/
-theorem workspaceSymbol_rangeOK_partial (utf16 : Bool) (doc : Txt) (j : Journal) (h : Hit) (x : LRange)
-    (ht : TreePositionsSound (unitOf utf16) doc j = true)
-    (hh : (h, x) ∈ workspaceSymbols j) (hg : hitGuard utf16 doc h = true) :
+/-- Workspace symbols: every symbol's range is computed from a name (declared account or
+    commodity) or estimated (payee); well-formed whenever those rune columns are positions of the
+    text.  The former guard "the range has an End" is gone. -/
+theorem workspaceSymbol_rangeOK (doc : Txt) (j : Journal) (h : Hit) (x : LRange)
+    (hd : docSmall doc = true) (hh : (h, x) ∈ workspaceSymbols (lines doc) j)
+    (hg : rngSound one doc h.rng = true) :
     rangeOK doc (toN x) = true := by
   simp only [workspaceSymbols, List.mem_map, Prod.mk.injEq] at hh
-  obtain ⟨h', hm, rfl, rfl⟩ := hh
-  exact hit_rangeOK ht (workspaceSymbolHits_node hm) hg
+  obtain ⟨h', _, rfl, rfl⟩ := hh
+  exact conv_rangeOK hg hd
+
+/-- … and on target. -/
+theorem workspaceSymbol_covers (doc : Txt) (j : Journal) (h : Hit) (x : LRange) (lex : Txt)
+    (hd : docSmall doc = true) (hh : (h, x) ∈ workspaceSymbols (lines doc) j)
+    (hl : lexSound one doc h.rng lex = true) : covers doc (toN x) lex = true := by
+  simp only [workspaceSymbols, List.mem_map, Prod.mk.injEq] at hh
+  obtain ⟨h', _, rfl, rfl⟩ := hh
+  exact conv_covers hl hd
+
+/-- The name range of a declared account is a range of the text whenever the name is written
+    where the tree says it starts (`account` + blank + name): the guard of the two theorems
+    above holds for every account directive of grammar G. -/
+theorem nameRange_lexSound (doc : Txt) (start : Pos) (name : Bytes) (ln pre suf lex : Txt)
+    (h1 : 1 ≤ start.line) (h2 : 1 ≤ start.col)
+    (hl : (docLines doc)[start.line - 1]? = some ln) (hln : ln = pre ++ lex ++ suf)
+    (hpre : pre.length = start.col - 1) (hlex : lex.length = runeLenB name) :
+    lexSound one doc (nameRange start name) lex = true := by
+  have e1 : start.col - 1 ≤ ln.length := by rw [hln]; simp; omega
+  have e2 : start.col + runeLenB name - 1 ≤ ln.length := by rw [hln]; simp; omega
+  simp only [lexSound, nameRange, hl, charsOf_one, e1, e2, if_true, Bool.and_eq_true, decide_eq_true_eq, beq_iff_eq]
+  refine ⟨⟨⟨⟨decide_eq_true h1, trivial⟩, decide_eq_true h2⟩, decide_eq_true (by omega)⟩, by omega, ?_⟩
+  have e3 : start.col + runeLenB name - 1 - (start.col - 1) = lex.length := by omega
+  rw [e3, hln, ← hpre, List.append_assoc, List.drop_left, List.take_left]
 
 /-- Document links, code as pinned (range of the whole directive). -/
-theorem documentLink_rangeOK_partial (utf16 : Bool) (doc : Txt) (j : Journal) (fx : Fixes)
-    (hfx : fx.link = false) (ht : TreePositionsSound (unitOf utf16) doc j = true)
-    (hg : ∀ i ∈ j.includes, convGuard utf16 doc i.range = true) :
+theorem documentLink_rangeOK_partial (doc : Txt) (j : Journal) (fx : Fixes)
+    (hfx : fx.link = false) (ht : TreePositionsSound one doc j = true) (hd : docSmall doc = true)
+    (hg : ∀ i ∈ j.includes, hasEnd i.range = true) :
     ∀ x ∈ documentLinks fx doc j, rangeOK doc (toN x) = true := by
   intro x hx
   unfold documentLinks at hx
@@ -239,7 +266,7 @@ theorem documentLink_rangeOK_partial (utf16 : Bool) (doc : Txt) (j : Journal) (f
   · simp at hx
   · simp only [hfx, Bool.false_eq_true, if_false, List.mem_map] at hx
     obtain ⟨i, hi, rfl⟩ := hx
-    exact node_rangeOK ht (inc_range_mem hi) (hg i hi)
+    exact node_rangeOK ht hd (inc_range_mem hi) (hg i hi)
 
 /-- Document links with repo_patches/fix-link-range.diff: whenever the path is written on the
     directive's line after the keyword, the link range covers exactly the path — in UTF-16
@@ -333,38 +360,38 @@ example :
 
 /-- Diagnostics: parse errors (a token position), analyzer diagnostics (ranges of postings,
     transactions and commodities, stored in the tree; or tag ranges, computed by parseTags, for
-    which the guard asks that they be UTF-16-column ranges of the text), include errors. -/
-theorem diagnostics_rangeOK_partial (utf16 : Bool) (doc : Txt) (j : Journal)
+    which the guard asks that they be rune-column ranges of the text), include errors. -/
+theorem diagnostics_rangeOK_partial (doc : Txt) (j : Journal)
     (perrs : List ParseError) (an load : List Rng)
-    (ht : TreePositionsSound (unitOf utf16) doc j = true)
-    (hp : ∀ e ∈ perrs, rngSound u16w doc ⟨e.pos, e.pos⟩ = true ∧ rngSmall ⟨e.pos, e.pos⟩ = true)
-    (ha : ∀ r ∈ an, (r ∈ nodeRanges j ∧ convGuard utf16 doc r = true) ∨
-                    (rngSound u16w doc r = true ∧ rngSmall r = true))
-    (hl : ∀ r ∈ load, r ∈ nodeRanges j ∧ convGuard utf16 doc r = true) :
-    ∀ x ∈ diagnostics perrs an load, rangeOK doc (toN x) = true := by
+    (ht : TreePositionsSound one doc j = true) (hd : docSmall doc = true)
+    (hp : ∀ e ∈ perrs, rngSound one doc ⟨e.pos, e.pos⟩ = true)
+    (ha : ∀ r ∈ an, (r ∈ nodeRanges j ∧ hasEnd r = true) ∨ rngSound one doc r = true)
+    (hl : ∀ r ∈ load, r ∈ nodeRanges j ∧ hasEnd r = true) :
+    ∀ x ∈ diagnostics (lines doc) perrs an load, rangeOK doc (toN x) = true := by
   intro x hx
   simp only [diagnostics, List.mem_append, List.mem_map] at hx
   rcases hx with (⟨e, he, rfl⟩ | ⟨r, hr, rfl⟩) | ⟨r, hr, rfl⟩
-  · exact conv_rangeOK (r := ⟨e.pos, e.pos⟩) (hp e he).1 (hp e he).2
+  · exact conv_rangeOK (hp e he) hd
   · rcases ha r hr with h | h
-    · exact node_rangeOK ht h.1 h.2
-    · exact conv_rangeOK h.1 h.2
-  · have h := node_rangeOK ht (hl r hr).1 (hl r hr).2
-    -- `uint32(max(0, x-1))` and `uint32(x-1)` agree on x ≥ 1
-    have hz : ∀ n, 1 ≤ n → m1z n = m1 n := by
-      intro n hn; unfold m1z m1; have : n ≠ 0 := by omega
-      simp [this]
-    have hs := (hl r hr).2
-    simp only [convGuard, Bool.and_eq_true, Bool.or_eq_true] at hs
-    have hsound : rngSound u16w doc r = true := by
-      have htt := ht
-      simp only [TreePositionsSound, List.all_eq_true, Bool.or_eq_true] at htt
-      have hz' : ¬ (r.stop == Pos.zero) = true := by
-        intro h'; simp [bne, h'] at hs
-      exact rngSound_unit ((htt r (hl r hr).1).resolve_left hz') hs.2
-    simp only [rngSound, posSound, Bool.and_eq_true, decide_eq_true_eq] at hsound
-    rw [hz _ hsound.1.1.1.1, hz _ hsound.1.1.1.2, hz _ hsound.1.2.1.1, hz _ hsound.1.2.1.2]
-    exact h
+    · exact node_rangeOK ht hd h.1 h.2
+    · exact conv_rangeOK h hd
+  · -- `max(1, x)` is the identity on the 1-based lines and columns of a range of the text
+    have htt := ht
+    simp only [TreePositionsSound, List.all_eq_true, Bool.or_eq_true] at htt
+    have hz' : ¬ (r.stop == Pos.zero) = true := by
+      intro h'; have := (hl r hr).2; simp [hasEnd, bne, h'] at this
+    have hsound := (htt r (hl r hr).1).resolve_left hz'
+    have hs2 := hsound
+    simp only [rngSound, posSound, Bool.and_eq_true, decide_eq_true_eq] at hs2
+    have e1 : max 1 r.start.line = r.start.line := Nat.max_eq_right hs2.1.1.1.1
+    have e2 : max 1 r.start.col = r.start.col := Nat.max_eq_right hs2.1.1.1.2
+    have e3 : max 1 r.stop.line = r.stop.line := Nat.max_eq_right hs2.1.2.1.1
+    have e4 : max 1 r.stop.col = r.stop.col := Nat.max_eq_right hs2.1.2.1.2
+    rw [e1, e2, e3, e4]
+    have hconv : ∀ o1 o2, astRangeToProtocol (lines doc) ⟨⟨r.start.line, r.start.col, o1⟩, ⟨r.stop.line, r.stop.col, o2⟩⟩ =
+        astRangeToProtocol (lines doc) r := fun _ _ => rfl
+    rw [hconv]
+    exact conv_rangeOK hsound hd
 
 /-- Inline completion: the edit range `line:0 – cursor` is well-formed for every cursor that is
     a position of the document (full theorem, no guard). -/
@@ -398,14 +425,14 @@ theorem inlineCompletion_rangeOK (doc : Txt) (c : Cur) (n : Nat)
 theorem account_trailing_blank_counterexample :
     let doc := "2024-01-15 x\n    a:b ;c\n".toList
     let r : Rng := ⟨⟨2, 5, 17⟩, ⟨2, 9, 21⟩⟩
-    rngSound one doc r = true ∧ covers doc (toN (astRangeToProtocol r)) "a:b".toList = false ∧
-    slice doc (toN (astRangeToProtocol r)) = some "a:b ".toList := by decide
+    rngSound one doc r = true ∧ covers doc (toN (astRangeToProtocol (lines doc) r)) "a:b".toList = false ∧
+    slice doc (toN (astRangeToProtocol (lines doc) r)) = some "a:b ".toList := by decide
 
 /-- `1 USD ; c`: `Amount.Range` ends at the comment token. -/
 theorem amount_trailing_blank_counterexample :
     let doc := "2024-01-15 x\n    a:b  1 USD ; c\n".toList
     let r : Rng := ⟨⟨2, 10, 22⟩, ⟨2, 16, 28⟩⟩
-    rngSound one doc r = true ∧ slice doc (toN (astRangeToProtocol r)) = some "1 USD ".toList := by decide
+    rngSound one doc r = true ∧ slice doc (toN (astRangeToProtocol (lines doc) r)) = some "1 USD ".toList := by decide
 
 /-- `2024-01-15 (c1) Shop`: `estimatePayeeRange` places the payee one blank after the date; the
     range sent for the payee "Shop" covers the code. -/
@@ -414,9 +441,9 @@ theorem payee_estimate_counterexample :
     let tx : Transaction := ⟨⟨2024, 1, 15, ⟨⟨1, 1, 0⟩, ⟨1, 11, 10⟩⟩⟩, none, .none, [99, 49], [83, 104, 111, 112],
       [], [], [], [], [], ⟨⟨1, 1, 0⟩, ⟨2, 1, 21⟩⟩⟩
     let r := estimatePayeeRange tx (payeeOf tx)
-    rangeOK doc (toN (astRangeToProtocol r)) = true ∧
-    covers doc (toN (astRangeToProtocol r)) "Shop".toList = false ∧
-    slice doc (toN (astRangeToProtocol r)) = some "(c1)".toList := by decide
+    rangeOK doc (toN (astRangeToProtocol (lines doc) r)) = true ∧
+    covers doc (toN (astRangeToProtocol (lines doc) r)) "Shop".toList = false ∧
+    slice doc (toN (astRangeToProtocol (lines doc) r)) = some "(c1)".toList := by decide
 
 /-- … and it is exact on the canonical header `date payee` (non-vacuity of the payee guard). -/
 example :
@@ -424,21 +451,81 @@ example :
     let tx : Transaction := ⟨⟨2024, 1, 15, ⟨⟨1, 1, 0⟩, ⟨1, 11, 10⟩⟩⟩, none, .none, [], [83, 104, 111, 112],
       [], [], [], [], [], ⟨⟨1, 1, 0⟩, ⟨2, 1, 16⟩⟩⟩
     let h : Hit := ⟨.payee, payeeOf tx, estimatePayeeRange tx (payeeOf tx), true⟩
-    hitGuard false doc h = true ∧ lexSound u16w doc h.rng "Shop".toList = true := by decide
+    hitGuard doc h = true ∧ lexSound one doc h.rng "Shop".toList = true := by decide
 
-/-- `; café, k:v`: parseTags adds the BYTE offset of `k` in the comment text (8) to the rune
-    column of the `;`; the tag's name range is sent one column to the right and covers ":". -/
-theorem tag_byte_offsets_counterexample :
+/-- `parseTags` as pinned: the BYTE offsets of the tag inside the comment text were added to the
+    rune column of the `;`. -/
+def tagRangePinned (base : Pos) (tagStart tagEnd : Nat) : Rng :=
+  ⟨⟨base.line, base.col + 1 + tagStart, base.off + 1 + tagStart⟩,
+   ⟨base.line, base.col + 1 + tagEnd, base.off + 1 + tagEnd⟩⟩
+
+/-- `; café, k:v`: as pinned the byte offset of `k` in the comment text (8, one more than its
+    rune offset) was added to the column of the `;`: the tag's name range was sent one column to
+    the right and covered ":".  The repaired parser counts the runes of the text before the tag
+    (fix-tag-columns.diff): name and value are covered exactly. -/
+theorem pinned_tag_byte_offsets_counterexample :
     let doc := "2024-01-15 x ; café, k:v\n".toList
-    let t : Tag := ⟨[107], [118], ⟨⟨1, 23, 22⟩, ⟨1, 26, 25⟩⟩⟩
-    slice doc (toN (astRangeToProtocol (tagNameRng t))) = some ":".toList ∧
-    covers doc (toN (astRangeToProtocol (tagNameRng t))) "k".toList = false := by decide
+    let text : Bytes := " café, k:v".toUTF8.toList
+    let base : Pos := ⟨1, 14, 13⟩
+    let tp : Tag := ⟨[107], [118], tagRangePinned base 8 11⟩
+    slice doc (toN (astRangeToProtocol (lines doc) (tagNameRng tp))) = some ":".toList ∧
+    covers doc (toN (astRangeToProtocol (lines doc) (tagNameRng tp))) "k".toList = false ∧
+    HL.Parser.parseTags text base = [⟨[107], [118], ⟨⟨1, 22, 22⟩, ⟨1, 25, 25⟩⟩⟩] ∧
+    ((HL.Parser.parseTags text base).map fun t =>
+      (covers doc (toN (astRangeToProtocol (lines doc) (tagNameRng t))) "k".toList,
+       covers doc (toN (astRangeToProtocol (lines doc) (tagValueRng t))) "v".toList)) = [(true, true)] := by
+  decide +kernel
 
-/-- `k: v`: the value range starts right after the colon. -/
-theorem tag_value_leading_blank_counterexample :
+/-- Tags after text with characters outside the BMP, a value of non-ASCII letters: every name
+    and value range the server derives from the repaired parser's tags covers its text. -/
+example :
+    let doc := "2024-01-15 x ; 😀 日本, k:  été, e:\n".toList
+    let text : Bytes := " 😀 日本, k:  été, e:".toUTF8.toList
+    let base : Pos := ⟨1, 14, 13⟩
+    ((HL.Parser.parseTags text base).map fun t =>
+      (slice doc (toN (astRangeToProtocol (lines doc) (tagNameRng t))),
+       slice doc (toN (astRangeToProtocol (lines doc) (tagValueRng t))))) =
+      [(some "k".toList, some "été".toList), (some "e".toList, some [])] := by
+  decide +kernel
+
+/-- `k: v`: as pinned the value range started right after the colon and covered " v"; the
+    repaired code measures it back from the end of the tag. -/
+theorem pinned_tag_value_leading_blank_counterexample :
     let doc := "2024-01-15 x ; k: v\n".toList
     let t : Tag := ⟨[107], [118], ⟨⟨1, 16, 15⟩, ⟨1, 20, 19⟩⟩⟩
-    slice doc (toN (astRangeToProtocol (tagValueRng t))) = some " v".toList := by decide
+    slice doc (toN (astRangeToProtocolPinned (tagValueRngPinned t))) = some " v".toList ∧
+    covers doc (toN (astRangeToProtocol (lines doc) (tagValueRng t))) "v".toList = true := by decide
+
+/-- The value range of a tag covers exactly the value whenever the tag's End is the position
+    right after the value on the comment's line (what parseTags computes since it counts
+    runes: see `pinned_tag_byte_offsets_counterexample`), however many blanks follow the colon and
+    whatever precedes the tag's end — also for an empty value (empty range at the End). -/
+theorem tagValue_covers (doc : Txt) (t : Tag) (ln pre val suf : Txt)
+    (h1 : 1 ≤ t.range.stop.line) (h2 : 1 ≤ t.range.stop.col)
+    (hl : (docLines doc)[t.range.stop.line - 1]? = some ln) (hln : ln = pre ++ val ++ suf)
+    (hend : (pre ++ val).length = t.range.stop.col - 1) (hval : val.length = runeLenB t.value)
+    (hd : docSmall doc = true) :
+    covers doc (toN (astRangeToProtocol (lines doc) (tagValueRng t))) val = true := by
+  apply conv_covers _ hd
+  simp only [List.length_append] at hend
+  have e1 : t.range.stop.col - runeLenB t.value - 1 ≤ ln.length := by rw [hln]; simp; omega
+  have e2 : t.range.stop.col - 1 ≤ ln.length := by rw [hln]; simp; omega
+  simp only [lexSound, tagValueRng, hl, charsOf_one, e1, e2, if_true, Bool.and_eq_true, decide_eq_true_eq, beq_iff_eq]
+  refine ⟨⟨⟨⟨decide_eq_true h1, trivial⟩, decide_eq_true (by omega)⟩, decide_eq_true h2⟩, by omega, ?_⟩
+  have e3 : t.range.stop.col - runeLenB t.value - 1 = pre.length := by omega
+  have e4 : t.range.stop.col - 1 - pre.length = val.length := by omega
+  rw [hln, e3, List.append_assoc, List.drop_left, e4, List.take_left]
+
+/-- Non-vacuity: `😀 k:   v` (three blanks after the colon; the emoji stands before the comment,
+    where it does not disturb parseTags) and the empty value of `k:`. -/
+example :
+    let doc := "2024-01-15 😀 ; k:   v, e:\n".toList
+    let t : Tag := ⟨[107], [118], ⟨⟨1, 16, 18⟩, ⟨1, 22, 24⟩⟩⟩
+    let e : Tag := ⟨[101], [], ⟨⟨1, 24, 26⟩, ⟨1, 26, 28⟩⟩⟩
+    covers doc (toN (astRangeToProtocol (lines doc) (tagValueRng t))) "v".toList = true ∧
+    toN (astRangeToProtocol (lines doc) (tagValueRng t)) = ⟨0, 21, 0, 22⟩ ∧
+    covers doc (toN (astRangeToProtocol (lines doc) (tagValueRng e))) [] = true ∧
+    toN (astRangeToProtocol (lines doc) (tagValueRng e)) = ⟨0, 26, 0, 26⟩ := by decide
 
 /-- Document link as pinned: the range of `include other.journal` starts at the keyword. -/
 theorem link_covers_keyword_counterexample :
@@ -447,12 +534,12 @@ theorem link_covers_keyword_counterexample :
     (documentLinks Fixes.pinned doc j).map (fun x => slice doc (toN x)) = [some "include other.journal".toList] := by
   decide
 
-/-- Completion before upstream a42bf24 (`HL.Completion.editRange false` is the completion
+/-- Completion before upstream a42bf24 (`HL.Completion.Pinned.editRange false` is the completion
     builder's transcription of that code): on `account a:b` with the cursor at 0:0 the edit
     range is 8–0; on `    a:b  1    USD` with the cursor at character 11 it is 14–11. -/
 theorem completion_start_after_cursor_counterexample :
-    HL.Completion.editRange false .account "account a:b".toList 0 = some (8, 0) ∧
-    HL.Completion.editRange false .commodity "    a:b  1    USD".toList 11 = some (14, 11) ∧
+    HL.Completion.Pinned.editRange false .account "account a:b".toList 0 = some (8, 0) ∧
+    HL.Completion.Pinned.editRange false .commodity "    a:b  1    USD".toList 11 = some (14, 11) ∧
     rangeOK "account a:b".toList ⟨0, 8, 0, 0⟩ = false := by decide
 
 /-- Completion (current code): for EVERY document, every cursor that is a position of the
@@ -488,13 +575,13 @@ theorem completion_edit_rangeOK (doc : Txt) (c : Cur) (ctx : Nat)
       subst hr
       -- start ≤ cursor
       have hle0 : st ≤ k' := by
-        have hctx : ctxOf ctx = .account ∨ ctxOf ctx = .payee ∨ ctxOf ctx = .commodity := by
+        have hctx : ctxOf ctx = .account ∨ ctxOf ctx = .payee ∨ ctxOf ctx = .commodity ∨ ctxOf ctx = .tagName := by
           cases hcx : ctxOf ctx with
           | account => exact Or.inl rfl
           | payee => exact Or.inr (Or.inl rfl)
-          | commodity => exact Or.inr (Or.inr rfl)
+          | commodity => exact Or.inr (Or.inr (Or.inl rfl))
+          | tagName => exact Or.inr (Or.inr (Or.inr rfl))
           | unknown => rw [hcx] at hst0; simp [HL.Completion.editStart] at hst0
-          | tagName => rw [hcx] at hst0; simp [HL.Completion.editStart] at hst0
           | tagValue => rw [hcx] at hst0; simp [HL.Completion.editStart] at hst0
           | date => rw [hcx] at hst0; simp [HL.Completion.editStart] at hst0
         obtain ⟨s', hs', hle, _⟩ := HL.Completion.editStart_query (ctxOf ctx) line k' hkline hctx
@@ -561,16 +648,17 @@ theorem foldingRange_lines_ok (fx : Fixes) (doc : Txt) (j : Journal)
 /-! ## Laminar families: outline symbols and fold regions -/
 
 /-- Outline symbols of different entries never partially overlap (they are pairwise disjoint as
-    half-open ranges) whenever the entries' ranges in the tree are: the conversion is monotone.
-    No text hypothesis at all — non-BMP runes shift ranges but never reorder them. -/
-theorem symbols_laminar_partial (j : Journal)
+    half-open ranges) whenever the entries' ranges in the tree are: the conversion is monotone on
+    every line.  Nothing is asked of the text but its size — non-BMP runes move ranges but never
+    reorder them. -/
+theorem symbols_laminar_partial (doc : Txt) (j : Journal) (hsm : docSmall doc = true)
     (hs : ∀ r ∈ symbolRanges j, rngSmall r = true ∧ rngPos r = true)
     (hd : allPairs astDisjoint (symbolRanges j) = true) :
-    laminarSymbols ((documentSymbols j).map toN) = true := by
+    laminarSymbols ((documentSymbols (lines doc) j).map toN) = true := by
   rw [documentSymbols_eq, List.map_map]
   apply allPairs_map _ _ _ hd
   intro a ha b hb h
-  exact symRel_conv (hs a ha).1 (hs b hb).1 (hs a ha).2 (hs b hb).2 h
+  exact symRel_conv (docSmall_lines hsm) (hs a ha).1 (hs b hb).1 (hs a ha).2 (hs b hb).2 h
 
 def foldN (f : Fold) : Nat × Nat := (f.s.toNat, f.e.toNat)
 
@@ -650,33 +738,43 @@ theorem txFolds_laminar (fx : Fixes) (hfx : fx.fold = true) (j : Journal)
 
 /-! ## Non-vacuity: a journal on which every hypothesis used above holds
 
-    The tree is the real parser's tree of the text (two adjacent transactions, a Cyrillic
-    description). -/
+    The tree is the real parser's tree of the text (two adjacent transactions, a description
+    with an emoji and Cyrillic letters, an account with an emoji before the amount). -/
 
-def exDoc : Txt := "2024-01-15 кафе\n    a:b  1\n    c:d\n2024-01-16 x\n    a:b  2\n    c:d\n".toList
+def exDoc : Txt := "2024-01-15 😀 кафе\n    a😀:b  1 USD\n    c:d\n2024-01-16 x\n    a😀:b  2 USD\n    c:d\n".toList
 
-def exPosting (line : Nat) (name : Bytes) (amt : Bool) : Posting :=
-  ⟨.none, ⟨name, ⟨⟨line, 5, 0⟩, ⟨line, 8, 0⟩⟩⟩,
-   if amt then some ⟨⟨1, 0⟩, [49], ⟨[], .left, Rng.zero⟩, false, ⟨⟨line, 10, 0⟩, ⟨line, 11, 0⟩⟩⟩ else none,
-   none, none, [], [], .none, ⟨⟨line, 5, 0⟩, ⟨line, if amt then 11 else 8, 0⟩⟩⟩
+def exAcct : Bytes := [97, 240, 159, 152, 128, 58, 98]
+
+def exPosting (line : Nat) (amt : Bool) : Posting :=
+  if amt then
+    ⟨.none, ⟨exAcct, ⟨⟨line, 5, 0⟩, ⟨line, 9, 0⟩⟩⟩,
+     some ⟨⟨1, 0⟩, [49], ⟨[85, 83, 68], .right, ⟨⟨line, 13, 0⟩, ⟨line, 16, 0⟩⟩⟩, false, ⟨⟨line, 11, 0⟩, ⟨line, 16, 0⟩⟩⟩,
+     none, none, [], [], .none, ⟨⟨line, 5, 0⟩, ⟨line, 16, 0⟩⟩⟩
+  else
+    ⟨.none, ⟨[99, 58, 100], ⟨⟨line, 5, 0⟩, ⟨line, 8, 0⟩⟩⟩, none, none, none, [], [], .none, ⟨⟨line, 5, 0⟩, ⟨line, 8, 0⟩⟩⟩
 
 def exJournal : Journal :=
-  ⟨[⟨⟨2024, 1, 15, ⟨⟨1, 1, 0⟩, ⟨1, 11, 0⟩⟩⟩, none, .none, [], [208, 186, 208, 176, 209, 132, 208, 181], [], [],
-      [exPosting 2 [97, 58, 98] true, exPosting 3 [99, 58, 100] false], [], [], ⟨⟨1, 1, 0⟩, ⟨4, 1, 0⟩⟩⟩,
+  ⟨[⟨⟨2024, 1, 15, ⟨⟨1, 1, 0⟩, ⟨1, 11, 0⟩⟩⟩, none, .none, [],
+      [240, 159, 152, 128, 32, 208, 186, 208, 176, 209, 132, 208, 181], [], [],
+      [exPosting 2 true, exPosting 3 false], [], [], ⟨⟨1, 1, 0⟩, ⟨4, 1, 0⟩⟩⟩,
     ⟨⟨2024, 1, 16, ⟨⟨4, 1, 0⟩, ⟨4, 11, 0⟩⟩⟩, none, .none, [], [120], [], [],
-      [exPosting 5 [97, 58, 98] true, exPosting 6 [99, 58, 100] false], [], [], ⟨⟨4, 1, 0⟩, ⟨7, 1, 0⟩⟩⟩],
+      [exPosting 5 true, exPosting 6 false], [], [], ⟨⟨4, 1, 0⟩, ⟨7, 1, 0⟩⟩⟩],
    [], [], []⟩
 
 example :
-    TreePositionsSound (unitOf false) exDoc exJournal = true ∧
-    (symbolRanges exJournal).all (fun r => convGuard false exDoc r && rngSmall r && rngPos r) = true ∧
+    TreePositionsSound one exDoc exJournal = true ∧ docSmall exDoc = true ∧
+    (symbolRanges exJournal).all (fun r => hasEnd r && rngSmall r && rngPos r) = true ∧
     allPairs astDisjoint (symbolRanges exJournal) = true ∧
     allPairs entriesApart exJournal.transactions = true ∧
     allPairs linesApart exJournal.transactions = false ∧
-    (hover exJournal ⟨1, 5⟩).map (fun x => (x.1.kind, hitGuard false exDoc x.1, toN x.2)) = some (.account, true, ⟨1, 4, 1, 7⟩) ∧
-    (hover exJournal ⟨0, 13⟩).map (fun x => (x.1.kind, hitGuard false exDoc x.1, covers exDoc (toN x.2) "кафе".toList)) =
+    -- hover on the amount, cursor (UTF-16) after the emoji of the account
+    (hover (lines exDoc) exJournal ⟨1, 12⟩).map (fun x => (x.1.kind, hitGuard exDoc x.1, toN x.2)) =
+      some (.amount, true, ⟨1, 11, 1, 16⟩) ∧
+    (hover (lines exDoc) exJournal ⟨0, 15⟩).map (fun x => (x.1.kind, hitGuard exDoc x.1, covers exDoc (toN x.2) "😀 кафе".toList)) =
       some (.payee, true, true) ∧
-    ((references exJournal ⟨1, 5⟩ true).map fun x => (hitGuard false exDoc x.1, covers exDoc (toN x.2) "a:b".toList)) =
+    ((references (lines exDoc) exJournal ⟨1, 14⟩ true).map fun x => (hitGuard exDoc x.1, covers exDoc (toN x.2) "USD".toList)) =
+      [(true, true), (true, true)] ∧
+    ((references (lines exDoc) exJournal ⟨1, 5⟩ true).map fun x => (hitGuard exDoc x.1, covers exDoc (toN x.2) "a😀:b".toList)) =
       [(true, true), (true, true)] := by decide
 
 end HL.Props.C08
